@@ -14,6 +14,9 @@ pub mod c04;
 pub mod c09;
 pub mod c10;
 pub mod c11;
+pub mod c08;
+pub mod c12;
+pub mod c13;
 pub mod c15;
 pub mod c19;
 pub mod c20;
@@ -38,6 +41,9 @@ pub fn run(ctx: &Ctx) -> usize {
 		"C20" => c20::run(ctx),
 		"C10" => c10::run(ctx),
 		"C11" => c11::run(ctx),
+		"C08" => c08::run(ctx),
+		"C12" => c12::run(ctx),
+		"C13" => c13::run(ctx),
 		p => panic!("unknown property {}", p),
 	}
 }
@@ -49,6 +55,9 @@ pub fn replay(ctx: &Ctx, kind: &str, params: &Value) -> Result<(), Fail> {
 		"C02" => c02::case(ctx, kind, params, false),
 		"C03" => c03::case(ctx, kind, params, false),
 		"C04" => c04::case(ctx, kind, params, false),
+		"C13" => c13::case(ctx, kind, params, false),
+		"C12" => c12::case(ctx, kind, params, false),
+		"C08" => c08::case(ctx, kind, params, false),
 		"C11" => c11::case(ctx, kind, params, false),
 		"C10" => c10::case(ctx, kind, params, false),
 		"C20" => c20::case(ctx, kind, params, false),
